@@ -55,6 +55,13 @@ NOTES = {
  "C18a_1": ("restart scan: a case directory containing error.log is sent back to 'rerun' even when it later succeeded", "C18: #restart_scan::skip_iff_marker (added after this change was first missed)"),
  "C18a_2": ("reload loop: grid index by divmod of the stale requested point count", "C18: #reload_indices::own_index_on_reload (bounded; added after this change was first missed)"),
  "C18a_3": ("journal line formats the bounds with :g", "C18: #journal::roundtrip[...] (bounded; non-round bounds added after this change was first missed)"),
+
+ "C13a_1": ("GlobalApproxTides.orbit_spin_changed passes obliquity_change=eccentricity_change to the base class; obliquity-only changes leave CPL/CTL tides stale",
+            "C13: GlobalApproxTides.orbit_spin_changed::forwards (added; first run caught only by the bounded native histories, whose counterexamples are now reported)"),
+ "C13a_2": ("BaseWorld.set_state: the spin-sync block is moved before semi_major_axis is promoted to a frequency change; a forced-synchronous world addressed by semi-major axis keeps its old spin",
+            "C13: BaseWorld.set_state::ensures:spin_follows_orbit[world.set_state(semi_major_axis);sync=1] (invariant added after this change was first missed)"),
+ "C13a_3": ("LayeredTides.collapse_modes: global sums accumulated in place starting from the first layer's own array; the first tidal layer reports the global heating (arrays, >= 2 tidal layers)",
+            "C13: LayeredTides.collapse_modes#global_sums[n]::frame:layer_results_unchanged (fragment executed with ndarray object semantics; added after this change was first missed)"),
 }
 for k, (needs, det) in NOTES.items():
     p = f"/verif/seeded/{k}/meta.json"
